@@ -106,6 +106,7 @@ type FnCtx struct {
 	ifaceSrc map[ssa.Value]ssa.Value // MakeInterface look-through
 	closures map[ssa.Value]*ssa.MakeClosure
 	deferred []*ssa.Defer
+	axiomDone map[string]bool // function values whose contract axiom has been stated
 	prevArgs map[string]prevCall // arguments of the most recent call of each callee (for prevK in assert-call clauses)
 	rng      map[string][2]*big.Int // known interval of an Int term (implied by asserted type facts)
 	roMemo   map[*ssa.Alloc]bool
